@@ -151,9 +151,26 @@ def ls5(F, R):
     if not roots_:
         R.bad(fn, "anchor", "no ROOT_DIR mapping in get_entry", kind="anchor-missing")
     for b, i in roots_:
-        g1, _ = guarded(fn, b, lambda g: g.kind == "bool" and g.term[0] == "cmp" and g.term[1] == "Eq" and g.truth is True and ("EMPTY" in tstr(g.term) or g.term[3][:2] == ("c", 0)))
+        def full_cluster(t):
+            """t is the start cluster decoded for this entry's FAT type (both words on FAT32), not a part of it"""
+            t = strip_refs(t)
+            while t[0] == "place" and tuple(t[2]) == ("0",):
+                t = strip_refs(t[1])
+            cands = var_def_terms(fn, t[1]) if t[0] == "var" else [t]
+            names = sorted((strip_refs(c)[1] or "").split("::")[-1] if strip_refs(c)[0] == "call" else "?" for c in cands)
+            return names in (["first_cluster_fat16", "first_cluster_fat32"],)
+
+        def is_empty_test(g):
+            if not (g.kind == "bool" and g.term[0] == "cmp" and g.term[1] == "Eq" and g.truth is True):
+                return False
+            a, z = g.term[2], g.term[3]
+            for x, y in ((a, z), (z, a)):
+                if ("EMPTY" in tstr(y) or strip_refs(y)[:2] == ("c", 0)) and full_cluster(x):
+                    return True
+            return False
+        g1, _ = guarded(fn, b, is_empty_test)
         g2, _ = guarded(fn, b, g_call("Attributes::is_directory", True))
-        R.require(g1 and g2, fn, "root-iff-empty-dir", "ROOT_DIR mapping must be guarded by cluster == EMPTY && is_directory()", fn.loc(b, i))
+        R.require(g1 and g2, fn, "root-iff-empty-dir", "ROOT_DIR mapping must be guarded by <the full start cluster decoded for the FAT type> == EMPTY && is_directory() (testing only the low word turns FAT32 directories at multiples of 65536 into the root)", fn.loc(b, i))
         # no dependence on fat_type
         dep = [g for (gb, gi, g) in all_guards(fn) if "fat_type" in tstr(g.raw) and fn.unreachable_without(b, [(gb, gi)])]
         R.require(not dep, fn, "root-both-fat-types", "the cluster-0-means-root mapping depends on the FAT type (%s); '..' of a first-level directory stores 0 on FAT16 and FAT32 alike" % [repr(g) for g in dep], fn.loc(b, i))
